@@ -23,7 +23,7 @@ MCFoldTable == [Foo |-> "foo", foo |-> "foo", FOO |-> "foo", Bar |-> "bar", bar 
                 Zed |-> "zed", zz |-> "zz", ID |-> "id", PreFoo |-> "prefoo", Prefoo |-> "prefoo",
                 PreBar |-> "prebar", Prespec |-> "prespec", PreMetadata |-> "premetadata", p |-> "p", q |-> "q", P |-> "p"]
 MCTrimTable == [x \in {" a ", "b "} |-> IF x = " a " THEN "a" ELSE "b"]
-MCHintRank  == [h1 |-> 1, h2 |-> 2, skip_variant_plugin_registration |-> 3]
+MCHintRank  == [h1 |-> 1, h2 |-> 2, skip_variant_plugin_registration |-> 3, h3 |-> 4]
 
 (* ------------------------------ universe ------------------------------- *)
 RefFooND == AsNullable(WithDef(TRef("p", "Foo"), VStr("d")))
@@ -100,7 +100,7 @@ Acts ==
       to : {ObjRef("p", "Bar"), ObjRef("q", "Foo")}]
 \cup [a : {"constant_to_enum"}, objects : {<<r>> : r \in ORefs} \cup {<<ObjRef("p", "Foo"), ObjRef("r", "Foo")>>, <<ObjRef("r", "Foo"), ObjRef("p", "Foo")>>}]
 \cup [a : {"trim_enum_values"}]
-\cup [a : {"hint_object"}, object : ORefs, hints : {<<Hint("h1", VStr("nv")), Hint("h2", VBool(TRUE))>>}]
+\cup [a : {"hint_object"}, object : ORefs, hints : {<<Hint("h1", VStr("nv")), Hint("h2", VBool(TRUE))>>, <<Hint("h3", VStr("z"))>>}]
 \cup [a : {"schema_set_identifier"}, pkg : {"p", "r"}, id : {"ID"}]
 \cup [a : {"schema_set_entry_point"}, pkg : {"p", "q", "r"}, entry : {"Bar"}]
 \cup [a : {"prefix_objects_names"}, prefix : {"Pre", "", "Fo", "sp"}]   \* "Fo"/"sp": prefixes OF existing object names
@@ -111,7 +111,7 @@ Acts ==
 InitAct == [a |-> "init"]
 
 \* transformations that create or copy structure (object copies, shared `as` types, added fields)
-Copying(a) == a.a \in {"duplicate_object", "add_object", "retype_object", "retype_field", "add_fields", "rename_object"}
+Copying(a) == a.a \in {"duplicate_object", "add_object", "retype_object", "retype_field", "add_fields", "rename_object", "hint_object"}
 Structured(S) == Len(S[1].objects) = 1 /\ S[1].objects[1].type.k \in {"struct", "enum", "disj"}
 SeqSlice(S) == (NameIdx[S[1].objects[1].name] + (IF S[1].entry = "" THEN 0 ELSE 1)) % NSlices = Slice
 
